@@ -52,7 +52,7 @@ def projS (k : Nat) (tx : Tx) (t? : Option Stake) : Option Stake :=
   match tx with
   | .stake k' v => if k' = k then (match t? with | some t => some (stakeStep tx t) | none => some ⟨v, 0, []⟩) else t?
   | .retv k' v => if k' = k then (match t? with | some t => some (stakeStep tx t) | none => some ⟨-v, 0, []⟩) else t?
-  | .vote k' _ _ _ => if k' = k then t?.map (stakeStep tx) else t?
+  | .vote k' _ _ _ | .renew k' _ _ _ _ => if k' = k then t?.map (stakeStep tx) else t?
   | _ => t?
 
 theorem get_applyTx_accts (P : Params) (h : Nat) (s0 s : State) (tx : Tx) (o : Nat) :
@@ -100,6 +100,7 @@ theorem get_applyTx_accts (P : Params) (h : Nat) (s0 s : State) (tx : Tx) (o : N
     simp only [applyTx, projA]
     cases hg : get k s.stakes <;> rfl
   | vote k lock vs bad => simp [applyTx, projA]
+  | renew k ol am nl bo => simp [applyTx, projA]
   | retv k v =>
     simp only [applyTx, projA]
     cases hg : get k s.stakes <;> rfl
@@ -125,6 +126,11 @@ theorem get_applyTx_stakes (P : Params) (h : Nat) (s0 s : State) (tx : Tx) (k : 
       | none => simp [get_cons, hk]
       | some t => simp [get_upd, hk]
   | vote k' lock vs bad =>
+    simp only [applyTx, projS]
+    by_cases hk : k' = k
+    · subst hk; simp [get_upd]
+    · simp [get_upd, hk]
+  | renew k' ol am nl bo =>
     simp only [applyTx, projS]
     by_cases hk : k' = k
     · subst hk; simp [get_upd]
@@ -165,6 +171,22 @@ theorem sumV_map (lock : Nat) (vs : List Int) : sumV (vs.map (fun v => (⟨lock,
   induction vs with
   | nil => rfl
   | cons x t ih => simp [sumV, sumI, ih]
+
+theorem sumV_erase (v : Vote) : ∀ (l : List Vote), v ∈ l → sumV (l.erase v) = sumV l - v.amount := by
+  intro l
+  induction l with
+  | nil => intro h; cases h
+  | cons x t ih =>
+    intro h
+    by_cases hx : x = v
+    · subst hx; simp [sumV]; omega
+    · have hm : v ∈ t := by
+        rcases List.mem_cons.mp h with rfl | hm
+        · exact absurd rfl hx
+        · exact hm
+      have : (x :: t).erase v = x :: t.erase v := by
+        simp [List.erase_cons, hx]
+      rw [this]; simp [sumV, ih hm]; omega
 
 theorem sumV_filter_split (p : Vote → Bool) (l : List Vote) :
     sumV l = sumV (l.filter p) + sumV (l.filter (fun v => ¬ p v)) := by
